@@ -62,6 +62,14 @@ func (t *tailBuffer) String() string {
 	return t.head.String() + "\n...\n" + t.tail.String()
 }
 
+// childProcs lets the determinism self-test pin GOMAXPROCS per child (keyed by the spec's Tag).
+func childGOMAXPROCS(spec proto.Spec) string {
+	if spec.GoMaxProcs > 0 {
+		return fmt.Sprint(spec.GoMaxProcs)
+	}
+	return envOr("VERIF_CHILD_GOMAXPROCS", "2")
+}
+
 // runChild executes one child process for spec and returns what it reported. If the child dies in the
 // middle of a run, the death is recorded and, unless single is set, a fresh child continues after it.
 func runChild(bin string, spec proto.Spec, timeout time.Duration) chunkResult {
@@ -89,7 +97,7 @@ func runChildOnce(bin string, spec proto.Spec, timeout time.Duration) (ends []pr
 	ctx, cancel := context.WithTimeout(context.Background(), timeout)
 	defer cancel()
 	cmd := exec.CommandContext(ctx, bin, "-test.run", "^TestChild$", "-test.timeout", "0")
-	cmd.Env = append(os.Environ(), "VERIF_SPEC="+string(sj), "GORACE=halt_on_error=1 exitcode=66", "GOMAXPROCS="+envOr("VERIF_CHILD_GOMAXPROCS", "2"))
+	cmd.Env = append(os.Environ(), "VERIF_SPEC="+string(sj), "GORACE=halt_on_error=1 exitcode=66", "GOMAXPROCS="+childGOMAXPROCS(spec))
 	var stderr tailBuffer
 	cmd.Stderr = &stderr
 	stdout, err := cmd.StdoutPipe()
